@@ -353,6 +353,14 @@ func c17(r *ev.Result, tier string) {
 
 	base := ev.Scratch("c17-")
 	defer os.RemoveAll(base)
+	/* First, sequentially: changing one converter's filter table changes no
+	other converter (the enumeration below relies on it, and runs in
+	parallel). */
+	if !c17Independent(r, base) {
+		r.Exhaustive = false
+		r.Set("stopped", "converters share state; the parallel enumeration was not run")
+		return
+	}
 	var trees atomic.Int64
 	type ws struct{ dir, links string }
 	pool := make(chan ws, ncpu())
@@ -520,6 +528,35 @@ func c17(r *ev.Result, tier string) {
 	r.Set("mapfs_cases", nm)
 	r.Assume("per-file conversion (FromPerl/FromShell) is used as a black box here; FromPerl itself is C16's subject")
 	r.Assume("'regular file' is read as stat(2) reads it: a symlink to a regular file counts (that is what the quantifier's 'valid symlinks' are for); an empty conversion contributes nothing")
+}
+
+// c17Independent: SetFilter on one converter leaves a later default converter
+// with the documented default table.
+func c17Independent(r *ev.Result, base string) bool {
+	dir, links := filepath.Join(base, "indep", "src"), filepath.Join(base, "indep", "targets")
+	os.MkdirAll(dir, 0o755)
+	os.MkdirAll(links, 0o755)
+	entries := []c17Entry{{"a.sh", kReg}, {"b.pl", kReg}, {"c.subr", kReg}, {"x.txt", kReg}, {"a.sh~", kReg}}
+	if err := c17Build(dir, links, entries); nil != err {
+		ev.Broken("%s", err)
+	}
+	want, _ := c17Reference(entries, 0, true)
+	ok := true
+	for t := range c17Tables {
+		c17Converter(t) /* Modifies its own table. */
+		got, err := shellfuncsfile.NewDefaultConverter().From(dir)
+		r.Add(1)
+		if nil != err || !bytes.Equal(got, want) {
+			ok = false
+			r.Violate(ev.Violation{
+				Signature: "default-table-polluted",
+				What:      fmt.Sprintf("after another converter was given the table %q, a new default converter no longer uses the default filters: got %q err %v, want %q", c17TableNames[t], got, err, want),
+				Kind:      "c17", Replay: c17Case{Entries: entries, Table: 0, Form: "dir"},
+			})
+		}
+	}
+	c17Clean(dir)
+	return ok
 }
 
 func c17Replay(kind string, raw json.RawMessage) int {
